@@ -448,6 +448,14 @@ func (w *bsWorld) exec(r *Run, line string) string {
 			mustUnlocked(r, w.lines, "bridge store", err)
 		}
 		err := w.p.ProcessBlock(ctx, blk)
+		if ws[2] != "-" && err == nil {
+			// the trigger's counter survives only if the transaction was committed: was the armed statement reached all the same?
+			var n, target int64
+			if e := w.ctl.QueryRow(`SELECT n, target FROM verif_fault`).Scan(&n, &target); e == nil && n > target {
+				r.Fail(fmt.Sprintf("[C07,C08,C01] write statement %d of block %d's transaction failed (injected fault) and ProcessBlock reported success and committed: the error was swallowed, the store now misses what that statement wrote", target, bn),
+					append([]string{"new"}, w.lines...))
+			}
+		}
 		if ws[2] != "-" {
 			_, e2 := w.ctl.Exec(`UPDATE verif_fault SET armed=0`)
 			if e2 != nil && strings.Contains(e2.Error(), "locked") {
